@@ -318,7 +318,10 @@ class Tr:
             return lit(e.value)
         if isinstance(e, ast.Name):
             inline = self.a["inline"]
-            if e.id in self.env and (inline == "all" or e.id in inline):
+            # a local variable is inlined when the anchor asks for it, or — so that introducing a temporary in the source is
+            # harmless — whenever it is not one of the declared parameters of the generated definition
+            if e.id in self.env and (inline == "all" or e.id in inline or
+                                     self.a["rename"].get(e.id, e.id) not in self.a["params"]):
                 return self.tr(self.env[e.id])
             return self.param(e.id)
         if isinstance(e, ast.Attribute):
